@@ -38,7 +38,7 @@ func (o *SQLOpts) class(c string) {
 	}
 }
 
-var tableWords = []string{"Item", "Client", "Event", "Token", "Record", "Entry", "Label", "Point", "Route", "Score", "Phase", "Grade",
+var tableWords = []string{"Item", "Client", "Event", "Token", "Ledger", "Entry", "Label", "Point", "Route", "Score", "Phase", "Grade",
 	"Color", "Level", "State", "Basket", "Ticket", "Parcel", "Device", "Garden", "Planet", "Camp", "Meal", "Song"}
 
 var colWords = []string{"Name", "Value", "Count", "Size", "Title", "Body", "Owner", "Rank", "Width", "Height", "Amount", "Code", "Flag",
